@@ -98,8 +98,8 @@ def file_of(ctx, fnname):
 
 
 def address_helper_rule(ctx, chk):
-    """R4.  Every memory index of the interpreter goes through the two-argument address helper(s) of util::address (segment,
-    offset -> physical address).  The census classifies an index where it is used, after the helper's paths have been
+    """R4.  Every memory index of the interpreter goes through the helpers of util::address: (segment, offset) -> physical
+    address, the one-argument reduction of such a sum into the address space, and (address, increment) -> address.  The census classifies an index where it is used, after the helper's paths have been
     joined; there an interval like [0, 2^20] is no longer known to be attainable.  Here the helper's own paths are
     enumerated (its branches forced both ways), with segment and offset free 16-bit values: on each path the result's
     interval is exact, so a path whose result can reach 2^20 is a definite out-of-range address (with its closed form as
@@ -109,7 +109,7 @@ def address_helper_rule(ctx, chk):
     P = ctx.program
     n = 0
     for f in P.fns.values():
-        if not f["name"].startswith("util::address::") or f["argc"] != 2:
+        if not f["name"].startswith("util::address::") or f["argc"] not in (1, 2):
             continue
         sig = P.sigs.get(("lib", f["name"])) or {}
         if (sig.get("output") or "") != "usize":
@@ -126,7 +126,15 @@ def address_helper_rule(ctx, chk):
             I.record_switch = True
             I.force_switch = dict(force)
             st = machine_state(I, P)
-            r = I.run_fn(f, [I.new_atom("u16", "seg"), I.new_atom("u16", "off")], st)
+            if mode == "segoff":
+                args_ = [I.new_atom("u16", "seg"), I.new_atom("u16", "off")]
+            elif f["argc"] == 1:
+                # a one-argument helper reduces a sum seg*16 + off (+ a small increment) into the address space
+                args_ = [I.new_atom("usize", "addr", 0, 0x10FFEF + 0xFFFF)]
+            else:
+                # (address, increment): an address already inside the space, advanced by at most 64 K
+                args_ = [I.new_atom("usize", "addr", 0, (1 << 20) - 1), I.new_atom("usize", "inc", 0, 0xFFFF)]
+            r = I.run_fn(f, args_, st)
             nxt = None
             for e in I.events:
                 if e.kind == "switch" and e.fn == f["name"] and getattr(e, "depth", 1) == 1 and e.bb not in force and e.val.kind == "int" and not e.val.is_const():
@@ -141,15 +149,23 @@ def address_helper_rule(ctx, chk):
                 f2[nxt.bb] = v
                 explore(f2)
         unit = f["name"].split("::")[-1]
+        mode = "segoff" if f["argc"] == 2 else "reduce"
         try:
             explore({})
         except Unsupported as e:
             chk.undecided_("C09.R4", unit, str(e))
             continue
-        scaled = any(r.kind == "int" and r.aff is not None and any(k == 16 for _, k in r.aff.terms) for r in out) or \
-            any(r.kind == "int" and r.aff is not None and "16*seg" in r.aff.pretty() for r in out)
-        if not scaled:
-            continue
+        scaled = any(r.kind == "int" and r.aff is not None and "16*seg" in r.aff.pretty() for r in out)
+        if f["argc"] == 2 and not scaled:
+            # not a segment:offset translation: an (address, increment) helper
+            mode = "advance"
+            out.clear()
+            budget[0] = 32
+            try:
+                explore({})
+            except Unsupported as e:
+                chk.undecided_("C09.R4", unit, str(e))
+                continue
         n += 1
         where = f["span"].rsplit(":", 2)[0]
         bad = [r for r in out if r.kind == "int" and r.hi >= (1 << 20) and r.exact]
